@@ -1,1 +1,885 @@
 //! refevm — an independent, deliberately plain reference interpreter of EVM semantics.
+//!
+//! Written from the Ethereum Yellow Paper (sections 9 and appendix H) and the EIPs that added
+//! instructions later (EIP-145 shifts, EIP-211 return data, EIP-1153 transient storage,
+//! EIP-3855 PUSH0, EIP-5656 MCOPY, EIP-7939 CLZ). It is *not* derived from /repo/actors/evm:
+//! words are unbounded `BigUint`s reduced modulo 2^256 after every operation, signed
+//! operations go through `BigInt`, memory is a byte vector, storage is a `BTreeMap`.
+//!
+//! Scope: exactly the instruction groups property C17 names. Every other opcode yields
+//! `Verdict::Undefined` ("outside the model"); the caller excludes such programs and counts
+//! them. Gas does not exist here (FEVM has its own gas model); the only resource rules are
+//!   * a step limit (`Limits::max_steps`) -> `Undefined(StepLimit)`,
+//!   * memory: an access ending beyond 2^32 bytes is a failure (FEVM's documented 32-bit memory
+//!     limit, Ethereum: always out of gas); an access ending between `Limits::mem_cap` and 2^32
+//!     is `Undefined(MemoryGreyZone)` (Ethereum: depends on gas; FEVM: allocates).
+use fvm_shared::bigint::{BigInt, BigUint, Sign};
+use num_traits::{One, ToPrimitive, Zero};
+use std::collections::BTreeMap;
+
+pub type Word = BigUint;
+
+/// Kinds of exceptional halt (Yellow Paper 9.4.2 "Exceptional Halting"), folded to what is
+/// observable without gas.
+#[derive(Clone, Copy, Debug, PartialEq, Eq, PartialOrd, Ord, Hash)]
+pub enum Fail {
+    StackUnderflow,
+    StackOverflow,
+    BadJump,
+    /// INVALID (0xfe) or an opcode that is not defined.
+    InvalidInstruction,
+    /// Memory access beyond the limit, or RETURNDATACOPY beyond the return-data buffer (EIP-211).
+    MemAccess,
+    /// State modification in a static context (EIP-214). Never produced by the single-frame
+    /// reference interpreter; used by the classification of real outcomes.
+    StaticViolation,
+    /// The harness' step budget (hook H1) ran out: the "out of gas" of this test bench.
+    StepBudget,
+    /// Any other failure exit code (value kept for diagnostics only).
+    Other(u32),
+}
+
+#[derive(Clone, Debug, PartialEq, Eq, PartialOrd, Ord, Hash)]
+pub enum Outcome {
+    Return(Vec<u8>),
+    Revert(Vec<u8>),
+    Failure(Fail),
+}
+
+impl Outcome {
+    pub fn class(&self) -> &'static str {
+        match self {
+            Outcome::Return(_) => "return",
+            Outcome::Revert(_) => "revert",
+            Outcome::Failure(_) => "failure",
+        }
+    }
+    pub fn brief(&self) -> String {
+        let h = |d: &Vec<u8>| {
+            if d.len() <= 96 { hex::encode(d) } else { format!("{}..({} bytes)", hex::encode(&d[..96]), d.len()) }
+        };
+        match self {
+            Outcome::Return(d) => format!("return[{}]", h(d)),
+            Outcome::Revert(d) => format!("revert[{}]", h(d)),
+            Outcome::Failure(f) => format!("failure[{f:?}]"),
+        }
+    }
+}
+
+#[derive(Clone, Copy, Debug, PartialEq, Eq, PartialOrd, Ord)]
+pub enum Undefined {
+    StepLimit,
+    MemoryGreyZone,
+    /// Opcode outside the instruction groups of C17 (context, calls, logs, create, ...).
+    OutsideModel(u8),
+}
+
+#[derive(Clone, Debug, PartialEq, Eq)]
+pub enum Verdict {
+    Defined(Outcome),
+    Undefined(Undefined),
+}
+
+#[derive(Clone, Copy, Debug)]
+pub struct Limits {
+    pub max_steps: u64,
+    pub mem_cap: u64,
+}
+
+impl Default for Limits {
+    fn default() -> Self {
+        Limits { max_steps: 10_000, mem_cap: 1 << 22 }
+    }
+}
+
+// ------------------------------------------------------------------------------ words
+
+pub fn two_pow(n: u32) -> BigUint {
+    BigUint::one() << (n as usize)
+}
+pub fn modulus() -> BigUint {
+    two_pow(256)
+}
+pub fn max_word() -> BigUint {
+    two_pow(256) - BigUint::one()
+}
+fn wrap(x: BigUint) -> BigUint {
+    x % modulus()
+}
+pub fn w(n: u64) -> Word {
+    BigUint::from(n)
+}
+pub fn word_from_be(b: &[u8]) -> Word {
+    BigUint::from_bytes_be(b)
+}
+/// 32-byte big-endian image of a word.
+pub fn word_to_be(x: &Word) -> [u8; 32] {
+    let b = x.to_bytes_be();
+    assert!(b.len() <= 32, "word out of range");
+    let mut out = [0u8; 32];
+    out[32 - b.len()..].copy_from_slice(&b);
+    out
+}
+fn is_neg(x: &Word) -> bool {
+    *x >= two_pow(255)
+}
+/// Two's-complement reading of a word.
+fn signed(x: &Word) -> BigInt {
+    if is_neg(x) {
+        BigInt::from_biguint(Sign::Plus, x.clone()) - BigInt::from_biguint(Sign::Plus, modulus())
+    } else {
+        BigInt::from_biguint(Sign::Plus, x.clone())
+    }
+}
+/// The word congruent to `x` modulo 2^256.
+fn unsigned(x: BigInt) -> Word {
+    let m = BigInt::from_biguint(Sign::Plus, modulus());
+    let mut r = x % &m;
+    if r.sign() == Sign::Minus {
+        r += &m;
+    }
+    r.to_biguint().unwrap()
+}
+fn abs(x: &BigInt) -> BigUint {
+    x.magnitude().clone()
+}
+fn flag(b: bool) -> Word {
+    if b { BigUint::one() } else { BigUint::zero() }
+}
+
+// pure instruction semantics ------------------------------------------------------------
+
+pub fn op_add(a: &Word, b: &Word) -> Word {
+    wrap(a + b)
+}
+pub fn op_mul(a: &Word, b: &Word) -> Word {
+    wrap(a * b)
+}
+pub fn op_sub(a: &Word, b: &Word) -> Word {
+    wrap(a + modulus() - b)
+}
+pub fn op_div(a: &Word, b: &Word) -> Word {
+    if b.is_zero() { BigUint::zero() } else { a / b }
+}
+pub fn op_sdiv(a: &Word, b: &Word) -> Word {
+    if b.is_zero() {
+        return BigUint::zero();
+    }
+    let (sa, sb) = (signed(a), signed(b));
+    // truncation toward zero: sign * (|a| / |b|); -2^255 / -1 wraps to -2^255 through `unsigned`
+    let q = abs(&sa) / abs(&sb);
+    let neg = (sa.sign() == Sign::Minus) != (sb.sign() == Sign::Minus);
+    let q = BigInt::from_biguint(if neg { Sign::Minus } else { Sign::Plus }, q);
+    unsigned(q)
+}
+pub fn op_mod(a: &Word, b: &Word) -> Word {
+    if b.is_zero() { BigUint::zero() } else { a % b }
+}
+pub fn op_smod(a: &Word, b: &Word) -> Word {
+    if b.is_zero() {
+        return BigUint::zero();
+    }
+    let (sa, sb) = (signed(a), signed(b));
+    // sgn(a) * (|a| mod |b|)
+    let r = abs(&sa) % abs(&sb);
+    let r = BigInt::from_biguint(if sa.sign() == Sign::Minus { Sign::Minus } else { Sign::Plus }, r);
+    unsigned(r)
+}
+pub fn op_addmod(a: &Word, b: &Word, n: &Word) -> Word {
+    if n.is_zero() { BigUint::zero() } else { (a + b) % n }
+}
+pub fn op_mulmod(a: &Word, b: &Word, n: &Word) -> Word {
+    if n.is_zero() { BigUint::zero() } else { (a * b) % n }
+}
+pub fn op_exp(a: &Word, e: &Word) -> Word {
+    // square and multiply over the bits of the exponent, everything modulo 2^256
+    let mut result = BigUint::one();
+    let mut base = a.clone();
+    let nbits = e.bits();
+    for i in 0..nbits {
+        if e.bit(i) {
+            result = wrap(&result * &base);
+        }
+        base = wrap(&base * &base);
+    }
+    result
+}
+pub fn op_signextend(b: &Word, x: &Word) -> Word {
+    // b = index of the byte (0 = least significant) holding the sign bit
+    match b.to_u64() {
+        Some(k) if k < 31 => {
+            let t = (8 * k + 7) as u32; // sign bit position
+            let low_mask = two_pow(t + 1) - BigUint::one();
+            if x.bit(t as u64) {
+                (x & &low_mask) | (max_word() - low_mask)
+            } else {
+                x & &low_mask
+            }
+        }
+        _ => x.clone(),
+    }
+}
+pub fn op_lt(a: &Word, b: &Word) -> Word {
+    flag(a < b)
+}
+pub fn op_gt(a: &Word, b: &Word) -> Word {
+    flag(a > b)
+}
+pub fn op_slt(a: &Word, b: &Word) -> Word {
+    flag(signed(a) < signed(b))
+}
+pub fn op_sgt(a: &Word, b: &Word) -> Word {
+    flag(signed(a) > signed(b))
+}
+pub fn op_eq(a: &Word, b: &Word) -> Word {
+    flag(a == b)
+}
+pub fn op_iszero(a: &Word) -> Word {
+    flag(a.is_zero())
+}
+pub fn op_and(a: &Word, b: &Word) -> Word {
+    a & b
+}
+pub fn op_or(a: &Word, b: &Word) -> Word {
+    a | b
+}
+pub fn op_xor(a: &Word, b: &Word) -> Word {
+    a ^ b
+}
+pub fn op_not(a: &Word) -> Word {
+    max_word() - a
+}
+pub fn op_byte(i: &Word, x: &Word) -> Word {
+    // byte 0 is the most significant one
+    match i.to_u64() {
+        Some(k) if k < 32 => (x >> ((8 * (31 - k)) as usize)) & BigUint::from(0xffu32),
+        _ => BigUint::zero(),
+    }
+}
+pub fn op_shl(shift: &Word, value: &Word) -> Word {
+    match shift.to_u64() {
+        Some(s) if s < 256 => wrap(value << (s as usize)),
+        _ => BigUint::zero(),
+    }
+}
+pub fn op_shr(shift: &Word, value: &Word) -> Word {
+    match shift.to_u64() {
+        Some(s) if s < 256 => value >> (s as usize),
+        _ => BigUint::zero(),
+    }
+}
+pub fn op_sar(shift: &Word, value: &Word) -> Word {
+    // floor(signed(value) / 2^shift). For a negative value this is NOT(NOT(value) >> shift).
+    let neg = is_neg(value);
+    match shift.to_u64() {
+        Some(s) if s < 256 => {
+            if neg {
+                op_not(&(op_not(value) >> (s as usize)))
+            } else {
+                value >> (s as usize)
+            }
+        }
+        _ => {
+            if neg {
+                max_word()
+            } else {
+                BigUint::zero()
+            }
+        }
+    }
+}
+pub fn op_clz(x: &Word) -> Word {
+    w(256 - x.bits())
+}
+
+// ------------------------------------------------------------------------------ keccak
+
+const fn keccak_round_constants() -> [u64; 24] {
+    // rc[t] from the degree-8 LFSR x^8 + x^6 + x^5 + x^4 + 1 (FIPS 202, algorithm 5)
+    let mut rcs = [0u64; 24];
+    let mut lfsr: u8 = 1;
+    let mut round = 0;
+    while round < 24 {
+        let mut rc = 0u64;
+        let mut j = 0;
+        while j < 7 {
+            let bit = lfsr & 1;
+            // advance
+            let hi = lfsr & 0x80;
+            lfsr <<= 1;
+            if hi != 0 {
+                lfsr ^= 0x71;
+            }
+            if bit != 0 {
+                rc |= 1u64 << ((1u32 << j) - 1);
+            }
+            j += 1;
+        }
+        rcs[round] = rc;
+        round += 1;
+    }
+    rcs
+}
+
+fn keccak_f(a: &mut [u64; 25]) {
+    // a[x + 5*y]
+    let rc = keccak_round_constants();
+    for round in 0..24 {
+        // theta
+        let mut c = [0u64; 5];
+        for x in 0..5 {
+            c[x] = a[x] ^ a[x + 5] ^ a[x + 10] ^ a[x + 15] ^ a[x + 20];
+        }
+        for x in 0..5 {
+            let d = c[(x + 4) % 5] ^ c[(x + 1) % 5].rotate_left(1);
+            for y in 0..5 {
+                a[x + 5 * y] ^= d;
+            }
+        }
+        // rho and pi
+        let mut b = [0u64; 25];
+        b[0] = a[0];
+        let (mut x, mut y) = (1usize, 0usize);
+        for t in 0..24u32 {
+            let r = ((t + 1) * (t + 2) / 2) % 64;
+            // pi: lane (x,y) moves to (y, 2x+3y)
+            let (nx, ny) = (y, (2 * x + 3 * y) % 5);
+            b[nx + 5 * ny] = a[x + 5 * y].rotate_left(r);
+            x = nx;
+            y = ny;
+        }
+        // chi
+        for y in 0..5 {
+            for x in 0..5 {
+                a[x + 5 * y] = b[x + 5 * y] ^ (!b[(x + 1) % 5 + 5 * y] & b[(x + 2) % 5 + 5 * y]);
+            }
+        }
+        // iota
+        a[0] ^= rc[round];
+    }
+}
+
+/// Keccak-256 as used by Ethereum (rate 136 bytes, padding 0x01 .. 0x80).
+pub fn keccak256(data: &[u8]) -> [u8; 32] {
+    const RATE: usize = 136;
+    let mut st = [0u64; 25];
+    let mut padded = data.to_vec();
+    padded.push(0x01);
+    while padded.len() % RATE != 0 {
+        padded.push(0x00);
+    }
+    let last = padded.len() - 1;
+    padded[last] |= 0x80;
+    for block in padded.chunks(RATE) {
+        for (i, lane) in block.chunks(8).enumerate() {
+            st[i] ^= u64::from_le_bytes(lane.try_into().unwrap());
+        }
+        keccak_f(&mut st);
+    }
+    let mut out = [0u8; 32];
+    for i in 0..4 {
+        out[8 * i..8 * i + 8].copy_from_slice(&st[i].to_le_bytes());
+    }
+    out
+}
+
+/// Known-answer self test of the pieces of the reference model that are easy to get subtly
+/// wrong. A failure is a machinery error (the caller exits 2).
+pub fn self_test() -> Result<(), String> {
+    let kat = [
+        ("", "c5d2460186f7233c927e7db2dcc703c0e500b653ca82273b7bfad8045d85a470"),
+        ("abc", "4e03657aea45a94fc7d47ba826c8d667c0d1e6e33a64a036ec44f58fa12d6c45"),
+        (
+            "The quick brown fox jumps over the lazy dog",
+            "4d741b6f1eb29cb2a9b9911c82f56fa8d73b04959d3d9d222895df6c0b28aa15",
+        ),
+    ];
+    for (m, d) in kat {
+        if hex::encode(keccak256(m.as_bytes())) != d {
+            return Err(format!("keccak256({m:?}) known answer mismatch"));
+        }
+    }
+    // (multi-block inputs are cross-checked against the sha3 implementation the VM uses in
+    // `evmkit::self_test`)
+    let m1 = max_word();
+    let min = two_pow(255);
+    let checks: Vec<(&str, Word, Word)> = vec![
+        ("sdiv(min,-1)", op_sdiv(&min, &m1), min.clone()),
+        ("sdiv(-1,2)", op_sdiv(&m1, &w(2)), w(0)),
+        ("smod(-3,2)", op_smod(&(max_word() - w(2)), &w(2)), m1.clone()),
+        ("smod(3,-2)", op_smod(&w(3), &(max_word() - w(1))), w(1)),
+        ("sar(256,-1)", op_sar(&w(256), &m1), m1.clone()),
+        ("sar(1,-2)", op_sar(&w(1), &(max_word() - w(1))), m1.clone()),
+        ("sar(255,min)", op_sar(&w(255), &min), m1.clone()),
+        ("sar(4,0x80)", op_sar(&w(4), &w(0x80)), w(8)),
+        ("signextend(0,0x80)", op_signextend(&w(0), &w(0x80)), max_word() - w(0x7f)),
+        ("signextend(0,0x17f)", op_signextend(&w(0), &w(0x17f)), w(0x7f)),
+        ("signextend(31,x)", op_signextend(&w(31), &min), min.clone()),
+        ("signextend(30,2^247)", op_signextend(&w(30), &two_pow(247)), max_word() - (two_pow(247) - w(1))),
+        ("byte(31,0x1234)", op_byte(&w(31), &w(0x1234)), w(0x34)),
+        ("byte(0,2^255)", op_byte(&w(0), &min), w(0x80)),
+        ("exp(3,5)", op_exp(&w(3), &w(5)), w(243)),
+        ("exp(2,256)", op_exp(&w(2), &w(256)), w(0)),
+        ("exp(0,0)", op_exp(&w(0), &w(0)), w(1)),
+        ("addmod(max,max,max-1)", op_addmod(&m1, &m1, &(max_word() - w(1))), w(2)),
+        ("mulmod(max,max,12)", op_mulmod(&m1, &m1, &w(12)), (&m1 * &m1) % w(12)),
+        ("clz(0)", op_clz(&w(0)), w(256)),
+        ("clz(1)", op_clz(&w(1)), w(255)),
+        ("slt(-1,0)", op_slt(&m1, &w(0)), w(1)),
+        ("sgt(min,max_pos)", op_sgt(&min, &(two_pow(255) - w(1))), w(0)),
+        ("shl(255,1)", op_shl(&w(255), &w(1)), min.clone()),
+        ("shl(256,1)", op_shl(&w(256), &w(1)), w(0)),
+        ("sub(0,1)", op_sub(&w(0), &w(1)), m1.clone()),
+    ];
+    for (name, got, want) in checks {
+        if got != want {
+            return Err(format!("refevm self-test {name}: got {got:x} want {want:x}"));
+        }
+    }
+    Ok(())
+}
+
+// ------------------------------------------------------------------------------ code analysis
+
+/// Valid jump destinations: positions holding 0x5b that are reached by the linear sweep which
+/// skips the immediate data of PUSH1..PUSH32 (Yellow Paper 9.4.3).
+pub fn jumpdests(code: &[u8]) -> Vec<bool> {
+    let mut valid = vec![false; code.len()];
+    let mut i = 0usize;
+    while i < code.len() {
+        let op = code[i];
+        if op == 0x5b {
+            valid[i] = true;
+        }
+        if (0x60..=0x7f).contains(&op) {
+            i += (op - 0x5f) as usize;
+        }
+        i += 1;
+    }
+    valid
+}
+
+/// (items removed, items added) of every opcode this model knows or that the Yellow Paper /
+/// later EIPs define (Cancun + EIP-7939). `None` = undefined opcode.
+pub fn stack_io(op: u8) -> Option<(usize, usize)> {
+    Some(match op {
+        0x00 => (0, 0),
+        0x01..=0x07 => (2, 1),
+        0x08 | 0x09 => (3, 1),
+        0x0a | 0x0b => (2, 1),
+        0x10..=0x14 => (2, 1),
+        0x15 => (1, 1),
+        0x16..=0x18 => (2, 1),
+        0x19 => (1, 1),
+        0x1a..=0x1d => (2, 1),
+        0x1e => (1, 1),
+        0x20 => (2, 1),
+        0x30 => (0, 1),
+        0x31 => (1, 1),
+        0x32..=0x34 => (0, 1),
+        0x35 => (1, 1),
+        0x36 => (0, 1),
+        0x37 => (3, 0),
+        0x38 => (0, 1),
+        0x39 => (3, 0),
+        0x3a => (0, 1),
+        0x3b => (1, 1),
+        0x3c => (4, 0),
+        0x3d => (0, 1),
+        0x3e => (3, 0),
+        0x3f => (1, 1),
+        0x40 => (1, 1),
+        0x41..=0x48 => (0, 1),
+        0x49 => (1, 1), // BLOBHASH (EIP-4844; not modelled)
+        0x4a => (0, 1), // BLOBBASEFEE (EIP-7516; not modelled)
+        0x50 => (1, 0),
+        0x51 => (1, 1),
+        0x52 | 0x53 => (2, 0),
+        0x54 => (1, 1),
+        0x55 => (2, 0),
+        0x56 => (1, 0),
+        0x57 => (2, 0),
+        0x58..=0x5a => (0, 1),
+        0x5b => (0, 0),
+        0x5c => (1, 1),
+        0x5d => (2, 0),
+        0x5e => (3, 0),
+        0x5f..=0x7f => (0, 1),
+        0x80..=0x8f => ((op - 0x7f) as usize, (op - 0x7f) as usize + 1),
+        0x90..=0x9f => ((op - 0x8e) as usize, (op - 0x8e) as usize),
+        0xa0..=0xa4 => ((op - 0xa0) as usize + 2, 0),
+        0xf0 => (3, 1),
+        0xf1 | 0xf2 => (7, 1), // CALL, CALLCODE
+        0xf3 => (2, 0),
+        0xf4 => (6, 1),
+        0xf5 => (4, 1),
+        0xfa => (6, 1),
+        0xfd => (2, 0),
+        0xfe => (0, 0),
+        0xff => (1, 0),
+        _ => return None,
+    })
+}
+
+// ------------------------------------------------------------------------------ the machine
+
+/// Persistent account state of the single contract under test.
+#[derive(Clone, Debug, Default, PartialEq, Eq)]
+pub struct Account {
+    pub storage: BTreeMap<Word, Word>,
+}
+
+impl Account {
+    pub fn slot(&self, k: &Word) -> Word {
+        self.storage.get(k).cloned().unwrap_or_default()
+    }
+}
+
+pub struct Run {
+    pub verdict: Verdict,
+    /// instructions that completed without halting
+    pub steps: u64,
+    pub max_stack: usize,
+    pub mem_size: usize,
+}
+
+struct Machine<'a> {
+    code: &'a [u8],
+    calldata: &'a [u8],
+    returndata: Vec<u8>,
+    dests: Vec<bool>,
+    stack: Vec<Word>,
+    mem: Vec<u8>,
+    storage: BTreeMap<Word, Word>,
+    transient: BTreeMap<Word, Word>,
+    pc: usize,
+    lim: Limits,
+    max_stack: usize,
+}
+
+enum Stop {
+    Halt(Outcome),
+    Undef(Undefined),
+}
+
+type R<T> = Result<T, Stop>;
+
+fn fail<T>(f: Fail) -> R<T> {
+    Err(Stop::Halt(Outcome::Failure(f)))
+}
+
+impl Machine<'_> {
+    fn pop(&mut self) -> Word {
+        self.stack.pop().expect("arity checked before dispatch")
+    }
+    fn push(&mut self, x: Word) {
+        debug_assert!(x < modulus());
+        self.stack.push(x);
+        self.max_stack = self.max_stack.max(self.stack.len());
+    }
+
+    /// Touch memory `[off, off+size)`: word-granular expansion. `None` for an empty range
+    /// (no expansion, any offset: Yellow Paper, M(s, f, 0) = s).
+    fn touch(&mut self, off: &Word, size: &Word) -> R<Option<(usize, usize)>> {
+        if size.is_zero() {
+            return Ok(None);
+        }
+        let end = off + size;
+        if end > two_pow(32) {
+            return fail(Fail::MemAccess);
+        }
+        let end = end.to_u64().unwrap();
+        if end > self.lim.mem_cap {
+            return Err(Stop::Undef(Undefined::MemoryGreyZone));
+        }
+        let words = end.div_ceil(32);
+        let need = (words * 32) as usize;
+        if need > self.mem.len() {
+            self.mem.resize(need, 0);
+        }
+        Ok(Some((off.to_usize().unwrap(), size.to_usize().unwrap())))
+    }
+
+    /// `size` bytes of `data` starting at `off`, zero-padded beyond its end.
+    fn padded(data: &[u8], off: &Word, size: usize) -> Vec<u8> {
+        let mut out = vec![0u8; size];
+        if let Some(o) = off.to_usize()
+            && o < data.len()
+        {
+            let n = size.min(data.len() - o);
+            out[..n].copy_from_slice(&data[o..o + n]);
+        }
+        out
+    }
+
+    fn copy_in(&mut self, data: &[u8], dest: &Word, src: &Word, size: &Word) -> R<()> {
+        if let Some((d, n)) = self.touch(dest, size)? {
+            let bytes = Self::padded(data, src, n);
+            self.mem[d..d + n].copy_from_slice(&bytes);
+        }
+        Ok(())
+    }
+
+    fn jump_to(&mut self, dest: &Word) -> R<()> {
+        match dest.to_usize() {
+            Some(d) if d < self.code.len() && self.dests[d] => {
+                self.pc = d;
+                Ok(())
+            }
+            _ => fail(Fail::BadJump),
+        }
+    }
+
+    fn step(&mut self) -> R<()> {
+        let op = self.code[self.pc];
+        let Some((takes, gives)) = stack_io(op) else {
+            return fail(Fail::InvalidInstruction);
+        };
+        if op == 0xfe {
+            return fail(Fail::InvalidInstruction);
+        }
+        if self.stack.len() < takes {
+            return fail(Fail::StackUnderflow);
+        }
+        if self.stack.len() - takes + gives > 1024 {
+            return fail(Fail::StackOverflow);
+        }
+        let mut next = self.pc + 1;
+        match op {
+            0x00 => return Err(Stop::Halt(Outcome::Return(vec![]))),
+            0x01..=0x07 | 0x0a | 0x0b | 0x10..=0x14 | 0x16..=0x18 | 0x1a..=0x1d => {
+                let a = self.pop();
+                let b = self.pop();
+                let r = match op {
+                    0x01 => op_add(&a, &b),
+                    0x02 => op_mul(&a, &b),
+                    0x03 => op_sub(&a, &b),
+                    0x04 => op_div(&a, &b),
+                    0x05 => op_sdiv(&a, &b),
+                    0x06 => op_mod(&a, &b),
+                    0x07 => op_smod(&a, &b),
+                    0x0a => op_exp(&a, &b),
+                    0x0b => op_signextend(&a, &b),
+                    0x10 => op_lt(&a, &b),
+                    0x11 => op_gt(&a, &b),
+                    0x12 => op_slt(&a, &b),
+                    0x13 => op_sgt(&a, &b),
+                    0x14 => op_eq(&a, &b),
+                    0x16 => op_and(&a, &b),
+                    0x17 => op_or(&a, &b),
+                    0x18 => op_xor(&a, &b),
+                    0x1a => op_byte(&a, &b),
+                    0x1b => op_shl(&a, &b),
+                    0x1c => op_shr(&a, &b),
+                    0x1d => op_sar(&a, &b),
+                    _ => unreachable!(),
+                };
+                self.push(r);
+            }
+            0x08 | 0x09 => {
+                let a = self.pop();
+                let b = self.pop();
+                let n = self.pop();
+                self.push(if op == 0x08 { op_addmod(&a, &b, &n) } else { op_mulmod(&a, &b, &n) });
+            }
+            0x15 => {
+                let a = self.pop();
+                self.push(op_iszero(&a));
+            }
+            0x19 => {
+                let a = self.pop();
+                self.push(op_not(&a));
+            }
+            0x1e => {
+                let a = self.pop();
+                self.push(op_clz(&a));
+            }
+            0x20 => {
+                let off = self.pop();
+                let size = self.pop();
+                let h = match self.touch(&off, &size)? {
+                    Some((o, n)) => keccak256(&self.mem[o..o + n]),
+                    None => keccak256(&[]),
+                };
+                self.push(word_from_be(&h));
+            }
+            0x35 => {
+                let i = self.pop();
+                let b = Self::padded(self.calldata, &i, 32);
+                self.push(word_from_be(&b));
+            }
+            0x36 => self.push(w(self.calldata.len() as u64)),
+            0x37 => {
+                let (d, s, n) = (self.pop(), self.pop(), self.pop());
+                let data = self.calldata;
+                self.copy_in(data, &d, &s, &n)?;
+            }
+            0x38 => self.push(w(self.code.len() as u64)),
+            0x39 => {
+                let (d, s, n) = (self.pop(), self.pop(), self.pop());
+                let data = self.code;
+                self.copy_in(data, &d, &s, &n)?;
+            }
+            0x3d => self.push(w(self.returndata.len() as u64)),
+            0x3e => {
+                let (d, s, n) = (self.pop(), self.pop(), self.pop());
+                // EIP-211: reading beyond the buffer is an exceptional halt (no zero padding)
+                if &s + &n > w(self.returndata.len() as u64) {
+                    return fail(Fail::MemAccess);
+                }
+                let data = self.returndata.clone();
+                self.copy_in(&data, &d, &s, &n)?;
+            }
+            0x50 => {
+                self.pop();
+            }
+            0x51 => {
+                let off = self.pop();
+                let (o, _) = self.touch(&off, &w(32))?.unwrap();
+                self.push(word_from_be(&self.mem[o..o + 32]));
+            }
+            0x52 => {
+                let off = self.pop();
+                let v = self.pop();
+                let (o, _) = self.touch(&off, &w(32))?.unwrap();
+                self.mem[o..o + 32].copy_from_slice(&word_to_be(&v));
+            }
+            0x53 => {
+                let off = self.pop();
+                let v = self.pop();
+                let (o, _) = self.touch(&off, &w(1))?.unwrap();
+                self.mem[o] = word_to_be(&v)[31];
+            }
+            0x54 => {
+                let k = self.pop();
+                let v = self.storage.get(&k).cloned().unwrap_or_default();
+                self.push(v);
+            }
+            0x55 => {
+                let k = self.pop();
+                let v = self.pop();
+                if v.is_zero() {
+                    self.storage.remove(&k);
+                } else {
+                    self.storage.insert(k, v);
+                }
+            }
+            0x56 => {
+                let d = self.pop();
+                self.jump_to(&d)?;
+                next = self.pc;
+            }
+            0x57 => {
+                let d = self.pop();
+                let c = self.pop();
+                if !c.is_zero() {
+                    self.jump_to(&d)?;
+                    next = self.pc;
+                }
+            }
+            0x58 => self.push(w(self.pc as u64)),
+            0x59 => self.push(w(self.mem.len() as u64)),
+            0x5b => {}
+            0x5c => {
+                let k = self.pop();
+                let v = self.transient.get(&k).cloned().unwrap_or_default();
+                self.push(v);
+            }
+            0x5d => {
+                let k = self.pop();
+                let v = self.pop();
+                if v.is_zero() {
+                    self.transient.remove(&k);
+                } else {
+                    self.transient.insert(k, v);
+                }
+            }
+            0x5e => {
+                let (d, s, n) = (self.pop(), self.pop(), self.pop());
+                if !n.is_zero() {
+                    // expansion covers both ranges (EIP-5656: max(dst, src) + len)
+                    let (so, len) = self.touch(&s, &n)?.unwrap();
+                    let (dof, _) = self.touch(&d, &n)?.unwrap();
+                    let tmp = self.mem[so..so + len].to_vec();
+                    self.mem[dof..dof + len].copy_from_slice(&tmp);
+                }
+            }
+            0x5f..=0x7f => {
+                let n = (op - 0x5f) as usize;
+                // code is implicitly followed by zeros
+                let mut imm = vec![0u8; n];
+                for (i, b) in imm.iter_mut().enumerate() {
+                    if let Some(c) = self.code.get(self.pc + 1 + i) {
+                        *b = *c;
+                    }
+                }
+                self.push(word_from_be(&imm));
+                next = self.pc + 1 + n;
+            }
+            0x80..=0x8f => {
+                let n = (op - 0x7f) as usize;
+                let v = self.stack[self.stack.len() - n].clone();
+                self.push(v);
+            }
+            0x90..=0x9f => {
+                let n = (op - 0x8f) as usize;
+                let top = self.stack.len() - 1;
+                self.stack.swap(top, top - n);
+            }
+            0xf3 | 0xfd => {
+                let off = self.pop();
+                let size = self.pop();
+                let data = match self.touch(&off, &size)? {
+                    Some((o, n)) => self.mem[o..o + n].to_vec(),
+                    None => vec![],
+                };
+                return Err(Stop::Halt(if op == 0xf3 { Outcome::Return(data) } else { Outcome::Revert(data) }));
+            }
+            other => return Err(Stop::Undef(Undefined::OutsideModel(other))),
+        }
+        self.pc = next;
+        Ok(())
+    }
+}
+
+/// Execute `code` as one message call on `account` with `calldata`. Storage changes are
+/// committed to `account` iff the outcome is `Return`; transient storage starts empty
+/// (EIP-1153: discarded at the end of every transaction).
+pub fn execute(code: &[u8], calldata: &[u8], account: &mut Account, lim: Limits) -> Run {
+    let mut m = Machine {
+        code,
+        calldata,
+        returndata: vec![],
+        dests: jumpdests(code),
+        stack: vec![],
+        mem: vec![],
+        storage: account.storage.clone(),
+        transient: BTreeMap::new(),
+        pc: 0,
+        lim,
+        max_stack: 0,
+    };
+    let mut steps = 0u64;
+    let verdict = loop {
+        if m.pc >= code.len() {
+            break Verdict::Defined(Outcome::Return(vec![]));
+        }
+        if steps >= lim.max_steps {
+            break Verdict::Undefined(Undefined::StepLimit);
+        }
+        match m.step() {
+            Ok(()) => steps += 1,
+            Err(Stop::Halt(o)) => {
+                if !matches!(o, Outcome::Failure(_)) {
+                    steps += 1;
+                }
+                break Verdict::Defined(o);
+            }
+            Err(Stop::Undef(u)) => break Verdict::Undefined(u),
+        }
+    };
+    if let Verdict::Defined(Outcome::Return(_)) = &verdict {
+        account.storage = m.storage;
+    }
+    Run { verdict, steps, max_stack: m.max_stack, mem_size: m.mem.len() }
+}
